@@ -178,6 +178,15 @@ func eqWeight(i, n int, rho []fr.Element) *big.Int {
 }
 
 func runP2(c P2Case) (out ev.Outcome, harness string) {
+	slowSeen.Store(false)
+	out, harness = runP2Inner(c)
+	if slowSeen.Load() {
+		return ev.Outcome{Discard: true, DiscardWhy: "a solve was still working at the wall cap (loaded machine): inconclusive"}, ""
+	}
+	return out, harness
+}
+
+func runP2Inner(c P2Case) (out ev.Outcome, harness string) {
 	f := prog.FieldByName("bls12-377")
 	p := f.Q
 	n := len(c.Ins)
@@ -278,6 +287,9 @@ func runP2(c P2Case) (out ev.Outcome, harness string) {
 		return solveDetached("bls12-377", sys, assign(av, ev), info, adv, p, env.options()...)
 	}
 	recH, err := solve(a, exp, nil, &p2Env{})
+	if errors.Is(err, errSlow) {
+		return ev.Outcome{Discard: true, DiscardWhy: "solve still working at the wall cap (loaded machine): inconclusive"}, ""
+	}
 	if errors.Is(err, errHung) {
 		return ev.Outcome{Violation: fmt.Sprintf("%s honest Solve with the genuine hints passed as overrides does not terminate", where)}, ""
 	}
@@ -422,6 +434,9 @@ func runP2(c P2Case) (out ev.Outcome, harness string) {
 		default:
 			return ev.Outcome{Discard: true, DiscardWhy: "p2: unknown forgery kind"}, ""
 		}
+		if errors.Is(err, errSlow) {
+			return ev.Outcome{Discard: true, DiscardWhy: "solve still working at the wall cap (loaded machine): inconclusive"}, ""
+		}
 		if errors.Is(err, errHung) {
 			return ev.Outcome{Violation: whF + " Solve does not terminate under the altered hint data"}, ""
 		}
@@ -473,6 +488,7 @@ func TestPoseidon2Gadget(t *testing.T) {
 	g := genP2Case()
 	rec.Check(t, "gkr-poseidon2", ev.N(3, 160), func(rt *rapid.T) {
 		c := g.Draw(rt, "case")
+		rec.Begin("gkr-poseidon2", c)
 		o, harness := runP2(c)
 		if harness != "" {
 			b, _ := json.Marshal(c)
